@@ -301,6 +301,15 @@ def templates():
     def _(p, a):
         return (lambda: a.to("cpu")) if p.rng.random() < 0.5 else (lambda: a.cpu())
 
+    @reg("to_copy")
+    def _(p, a):
+        c = p.rng.integers(3)
+        if c == 0:
+            return lambda: a.to("cpu", copy=True)
+        if c == 1:
+            return lambda: a.to(a.dtype, copy=True)
+        return lambda: a.to(device="cpu", dtype=a.dtype, copy=True)
+
     @reg("copy_")
     def _(p, a):
         c = p.rng.integers(4)
@@ -524,4 +533,4 @@ TEMPLATES = templates()
 SHAPE_OPS = {"view_flat", "view_shape", "reshape", "torch.reshape", "flatten", "unsqueeze", "squeeze", "transpose", "t",
              "permute", "select", "getitem_int", "getitem_slice", "getitem_index", "index_select", "expand", "expand_size1",
              "cat2", "cat3", "stack2", "stack3", "split", "chunk"}
-MOVE_OPS = {"clone", "detach", "contiguous", "to_dtype", "to_cpu", "copy_"}
+MOVE_OPS = {"clone", "detach", "contiguous", "to_dtype", "to_cpu", "to_copy", "copy_"}
